@@ -685,7 +685,7 @@ def resolve_type_params(
 def substitute_type_params(typ: Type, substitutions: dict[Type, Type]) -> Type:
     if is_annotated(typ):
         origin = get_type_origin(typ)
-        subst = substitutions.get(origin, origin)
+        subst = substitute_type_params(origin, substitutions)
         return typing_extensions.Annotated[
             (subst, *get_type_annotations(typ))  # type: ignore
         ]
